@@ -6,6 +6,7 @@ use std::io::{BufRead, Write};
 use std::panic::{catch_unwind, AssertUnwindSafe};
 
 mod dur;
+mod epoch;
 
 pub enum Tok {
     Z(i128),
@@ -66,7 +67,7 @@ pub fn pdur(d: Duration) -> String {
 }
 
 fn run(name: &str, a: &Args) -> Option<String> {
-    dur::run(name, a)
+    dur::run(name, a).or_else(|| epoch::run(name, a))
 }
 
 fn main() {
